@@ -91,6 +91,24 @@ CLAIMS = {
         note="Trusted: UUID/version constants transcribed from MS-GKDI 1.9, C706, MS-RPCE.",
         ref="DESIGN.md section 5 / C17",
     ),
+    "C05": dict(
+        technique="static analysis: region call graph, may-raise rules per primitive (dominating guards, interval proofs seeded by wire widths and the SID grammar, length summaries), loop certificates, recursion check",
+        text="Decides for the call-graph closure of unprotect up to DC lookup/RPC: every explicit raise is a deliberate type; every index/struct.unpack/to_bytes/dict-subscript site is proven safe by a dominating guard, a value-range proof or a length summary; every loop has a termination/bounded-work certificate (KDF walks <= 31 steps); no recursion; no swallowing handler. Does not decide: promptness in seconds; internals of third-party leaves beyond the stated summaries.",
+        note="Trusted: the external-leaf exception summary listed in the evidence; slices/int.from_bytes/len never raise.",
+        ref="DESIGN.md section 5 / C05",
+    ),
+    "C06": dict(
+        technique="static analysis: ASN.1 TLV shape tables (writer vs reader) extracted from the ASN1Writer/ASN1Reader idiom, constant folding against an RFC 5652/5084 reference table, provenance of raw insertions, layout-duality rules",
+        text="Decides: for the 7 CMS classes and ProtectionDescriptor the written TLV shape equals the read shape (types, tags, constructed bits, optionals, nesting, field correspondence) and no decoded field is altered afterwards; KeyIdentifier table agreement + reference; emitted constants = validated constants = reference (versions 2/4, one KEK recipient [2], OIDs, GCM parameters SEQUENCE{OCTET STRING, INTEGER 16}); DER discipline of the TLV writer; both blob layouts. Does not decide: acceptance by an external strict parser for all values.",
+        note="Trusted: reference constants transcribed from RFC 5652/5084 and a Windows blob; C07 obligations.",
+        ref="DESIGN.md section 5 / C06",
+    ),
+    "C07": dict(
+        technique="static analysis: reaching definitions for exact consumption, symbolic read table of the header decoder, writer/reader constant pairing, loop certificates and interval sinks for the digit loops, dominating non-empty guards",
+        text="Decides: each read_* advances by exactly its helper's consumed count, helpers return _validate_tag's count, _validate_tag returns (content, header+content) and raises on short input; identifier/length octet tables agree (masks, thresholds 31/128, long-form octets read right after the identifier octets, minimal big-endian lengths, indefinite form rejected); default universal tags pair up; digit loops are certified with byte stores in [0,255] and no read of empty content; nested writer discipline. Does not decide: minimality/value round trip of INTEGER and OID encodings for all values.",
+        note="Trusted: Python int.from_bytes/to_bytes, slicing, struct.unpack('B'); X.690 8.1 rules transcribed in rules/c07.py.",
+        ref="DESIGN.md section 5 / C07",
+    ),
 }
 
 NA_REASON = "check not built yet in this session (design in DESIGN.md section 5); not claimed until its engine passes the self-test"
